@@ -434,6 +434,41 @@ def run(ck, prog, ctx):
 
     # ---- index of the new cluster: distances to it are stored under (live index, index of the pushed set)
     ck.rule("FIELD", "the key of a new distance is (live index, index the merged set is pushed at): Vec::len taken before the push, or len - 1 after it (DESIGN 3.9)")
+    # ---- a list that is consumed POSITIONALLY (walked in lockstep with the distance callback's scores, or zipped) keeps its order: no method of the
+    # type may permute it (`swap_remove` moves the last element into the hole - the i-th score then belongs to another node)
+    from engines import for_loops as _flo
+    ck.rule("ORDER", "a Vec field walked in lockstep with another sequence is never permuted (swap_remove / swap / reverse / sort)")
+    link_bodies = [b_ for b_ in prog.production() if (b_.file or "").startswith("src/stats/linkage") and b_.kind in ("Fn", "AssocFn", "Closure")]
+    pv_o = Prov(prog, inline=False, mutflow=False)
+
+    def self_field(b_, op_):
+        fl_ = {a[2] for a in pv_o.of_operand(b_, op_) if a[0] == "field" and a[1].endswith("::Linkage")}
+        return next(iter(fl_)) if len(fl_) == 1 else None
+    lockstep = {}
+    for b_ in link_bodies:
+        for lp_ in _flo(b_):
+            f_ = self_field(b_, lp_["iter"])
+            if f_ is None:
+                continue
+            others = [t_ for bi_, t_ in b_.calls() if bi_ in lp_["blocks"] and bi_ != lp_["next_bb"] and t_.callee.method == "next" and t_.callee.trait == "std::iter::Iterator" and b_.loop_of(bi_) and b_.loop_of(bi_)[0] == lp_["header"]]
+            if others:
+                lockstep.setdefault(f_, (b_, lp_["line"], "a loop that also pulls `next()` from another iterator"))
+        for bi_, t_ in b_.calls():
+            if t_.callee.method == "zip" and t_.callee.trait == "std::iter::Iterator" and len(t_.args) == 2:
+                for a_ in t_.args:
+                    f_ = self_field(b_, a_)
+                    if f_ is not None:
+                        lockstep.setdefault(f_, (b_, t_.line, "a zip"))
+    n_perm = 0
+    for b_ in link_bodies:
+        for bi_, t_ in b_.calls():
+            if t_.callee.method in ("swap_remove", "swap", "reverse", "sort", "sort_unstable", "sort_by", "sort_by_key", "sort_unstable_by", "sort_unstable_by_key", "rotate_left", "rotate_right") and t_.args:
+                f_ = self_field(b_, t_.args[0])
+                if f_ in lockstep:
+                    n_perm += 1
+                    lb_, ll_, how_ = lockstep[f_]
+                    ck.ob("ORDER", "permuted/%s/%s" % (f_, b_.short), False, "%s permutes `self.%s` with `%s`, while %s consumes it positionally in %s (line %s): element i no longer pairs with the i-th value of the other sequence" % (b_.short, f_, t_.callee.method, lb_.short, how_, ll_), where=b_.where(t_.line))
+    ck.extra["positionally consumed Vec fields of Linkage"] = sorted(lockstep)
     from engines import check_parallel_vectors as _cpv
     ck.rule("PARALLEL", "two Vec fields of one struct that a method edits together are edited at the same position")
     ck.extra["side-by-side vector edits examined"] = _cpv(ck, "PARALLEL", prog, [b_ for b_ in prog.production() if (b_.file or "").startswith(("src/stats/linkage",))])
